@@ -260,9 +260,15 @@ fn run_case_inner(case: &ClusterCase, c: &mut Cluster) -> CaseReport {
                 if n > 1 {
                     labels.insert("draws_cross_cache_range".into());
                 }
+                let mut refused_in_a_row = 0;
                 for _ in 0..n {
+                    // a client gives up after three refusals in a row (no leader for the moment): bounds the time of a case
+                    if refused_in_a_row >= 3 {
+                        break;
+                    }
                     let name = fresh("t");
                     let acked = add_tool(&c.client, &c.http(nd), &name);
+                    refused_in_a_row = if acked { 0 } else { refused_in_a_row + 1 };
                     draws.push(Draw { node: nd, stream: "next", names: vec![name], acked, what: format!("op #{} {:?}", opi, op) });
                     if acked {
                         nodes_drawn.insert(nd);
@@ -292,7 +298,17 @@ fn run_case_inner(case: &ClusterCase, c: &mut Cluster) -> CaseReport {
                     let base = c.http(nd);
                     hs.push((nd, std::thread::spawn(move || {
                         let cl = reqwest::blocking::Client::builder().timeout(Duration::from_secs(8)).connect_timeout(Duration::from_secs(2)).pool_max_idle_per_host(0).build().ok();
-                        names.into_iter().map(|nm| { let ok = cl.as_ref().map(|cl| add_tool(cl, &base, &nm)).unwrap_or(false); (nm, ok) }).collect::<Vec<_>>()
+                        let mut out = vec![];
+                        let mut refused_in_a_row = 0;
+                        for nm in names {
+                            if refused_in_a_row >= 3 {
+                                break;
+                            }
+                            let ok = cl.as_ref().map(|cl| add_tool(cl, &base, &nm)).unwrap_or(false);
+                            refused_in_a_row = if ok { 0 } else { refused_in_a_row + 1 };
+                            out.push((nm, ok));
+                        }
+                        out
                     })));
                 }
                 for (nd, h) in hs {
@@ -329,10 +345,15 @@ fn run_case_inner(case: &ClusterCase, c: &mut Cluster) -> CaseReport {
                 }
                 let k = *key as usize % 3;
                 let (t, g, d) = KEYS[k];
+                let mut refused_in_a_row = 0;
                 for _ in 0..n {
+                    if refused_in_a_row >= 3 {
+                        break;
+                    }
                     pub_no += 1;
                     let content = format!("c19-k{}-p{}", k, pub_no);
                     let acked = matches!(c.publish(nd, t, g, d, &content), Ok(true));
+                    refused_in_a_row = if acked { 0 } else { refused_in_a_row + 1 };
                     publishes.push((k, content, acked));
                 }
             }
